@@ -1,6 +1,7 @@
 (** The JMESPath grammar as concrete syntax trees with binding-power side
     conditions (DESIGN.md 4.1): one constructor per production, [flat] prints a
-    tree to tokens, [erase] gives its abstract tree, and [ok] carries the
+    tree to tokens, [erase] gives its abstract tree (the offsets the trees carry
+    for error reporting are annotations of the syntax tree), and [ok] carries the
     disambiguation: an operand parsed "with right binding power q" must have
     [q < lo operand]; the left operand of an operator of power p needs
     [p <= tr left]. No reference to a parsing algorithm. *)
@@ -22,13 +23,13 @@ Inductive cst :=
 | CNot (c : cst) | CParen (c : cst)
 | CMList (e : cst) (es : list cst)                       (* non-empty by construction *)
 | CMHash (kv : bool * str * cst) (kvs : list (bool * str * cst))
-| CCall (name : str) (args : list (bool * cst))         (* [true] = expression-reference argument *)
+| CCall (off : Z) (name : str) (args : list (bool * cst))   (* [true] = expression-reference argument; [off]: position annotation *)
 | CStarP (k : cont) | CFlattenP (k : cont) | CFilterP (p : cst) (k : cont) | CWildP (k : cont)
-| CIndexP (n : Z) | CSliceP (sl : slice_parts) (k : cont)
+| CIndexP (n : Z) | CSliceP (off : Z) (sl : slice_parts) (k : cont)
 | CBin (o : binop) (l r : cst)
 | CDot (l d : cst)
 | CDotStar (l : cst) (k : cont)
-| CIndex (l : cst) (n : Z) | CSlice (l : cst) (sl : slice_parts) (k : cont)
+| CIndex (l : cst) (n : Z) | CSlice (l : cst) (off : Z) (sl : slice_parts) (k : cont)
 | CWild (l : cst) (k : cont) | CFlatten (l : cst) (k : cont) | CFilter (l p : cst) (k : cont)
 with cont := KNone | KDot (d : cst) | KExpr (x : cst).
 
@@ -52,7 +53,7 @@ Fixpoint flat (c : cst) : list token :=
       TLbrace :: key_tok q k :: TColon :: flat e ++
         (fix go (kvs : list (bool * str * cst)) : list token :=
            match kvs with [] => [TRbrace] | (q', k', x) :: r => TComma :: key_tok q' k' :: TColon :: flat x ++ go r end) kvs
-  | CCall name args =>
+  | CCall _ name args =>
       TIdentifier name :: TLparen ::
         match args with
         | [] => [TRparen]
@@ -69,12 +70,12 @@ Fixpoint flat (c : cst) : list token :=
   | CFilterP p k => TFilter :: flat p ++ TRbracket :: flatk k
   | CWildP k => TLbracket :: TStar :: TRbracket :: flatk k
   | CIndexP n => [TLbracket; TNumber n; TRbracket]
-  | CSliceP sl k => TLbracket :: slice_toks sl ++ TRbracket :: flatk k
+  | CSliceP _ sl k => TLbracket :: slice_toks sl ++ TRbracket :: flatk k
   | CBin o l r => flat l ++ binop_tok o :: flat r
   | CDot l d => flat l ++ TDot :: flat d
   | CDotStar l k => flat l ++ TDot :: TStar :: flatk k
   | CIndex l n => flat l ++ [TLbracket; TNumber n; TRbracket]
-  | CSlice l sl k => flat l ++ TLbracket :: slice_toks sl ++ TRbracket :: flatk k
+  | CSlice l _ sl k => flat l ++ TLbracket :: slice_toks sl ++ TRbracket :: flatk k
   | CWild l k => flat l ++ TLbracket :: TStar :: TRbracket :: flatk k
   | CFlatten l k => flat l ++ TFlatten :: flatk k
   | CFilter l p k => flat l ++ TFilter :: flat p ++ TRbracket :: flatk k
@@ -86,8 +87,8 @@ with flatk (k : cont) : list token :=
   | KExpr x => flat x
   end.
 
-Definition slice_ast (sl : slice_parts) : ast :=
-  ASlice 0 (sl_a sl) (sl_b sl) (match sl_c sl with Some (Some s) => s | _ => 1 end).
+Definition slice_ast (off : Z) (sl : slice_parts) : ast :=
+  ASlice off (sl_a sl) (sl_b sl) (match sl_c sl with Some (Some s) => s | _ => 1 end).
 
 Definition bin_ast (o : binop) (l r : ast) : ast :=
   match o with
@@ -101,18 +102,18 @@ Fixpoint erase (c : cst) : ast :=
   | CParen x => erase x
   | CMList e es => AMultiList (erase e :: map erase es)
   | CMHash (_, k, e) kvs => AMultiHash ((k, erase e) :: map (fun kv : bool * str * cst => let '(_, k', x) := kv in (k', erase x)) kvs)
-  | CCall name args => AFunction 0 name (map (fun a : bool * cst => let '(b, x) := a in if b then AExpref (erase x) else erase x) args)
+  | CCall off name args => AFunction off name (map (fun a : bool * cst => let '(b, x) := a in if b then AExpref (erase x) else erase x) args)
   | CStarP k => AProjection (AObjectValues AIdentity) (erasek k)
   | CFlattenP k => AProjection (AFlatten AIdentity) (erasek k)
   | CFilterP p k => AProjection AIdentity (ACondition (erase p) (erasek k))
   | CWildP k => AProjection AIdentity (erasek k)
   | CIndexP n => AIndex n
-  | CSliceP sl k => AProjection (slice_ast sl) (erasek k)
+  | CSliceP off sl k => AProjection (slice_ast off sl) (erasek k)
   | CBin o l r => bin_ast o (erase l) (erase r)
   | CDot l d => ASubexpr (erase l) (erase d)
   | CDotStar l k => AProjection (AObjectValues (erase l)) (erasek k)
   | CIndex l n => ASubexpr (erase l) (AIndex n)
-  | CSlice l sl k => ASubexpr (erase l) (AProjection (slice_ast sl) (erasek k))
+  | CSlice l off sl k => ASubexpr (erase l) (AProjection (slice_ast off sl) (erasek k))
   | CWild l k => AProjection (erase l) (erasek k)
   | CFlatten l k => AProjection (AFlatten (erase l)) (erasek k)
   | CFilter l p k => AProjection (erase l) (ACondition (erase p) (erasek k))
@@ -123,3 +124,35 @@ with erasek (k : cont) : ast :=
   | KDot d => erase d
   | KExpr x => erase x
   end.
+
+(** The separated tails of multi-select lists, multi-select hashes and argument
+    lists as functions of their own (equal to the local fixpoints of [flat]). *)
+Fixpoint mlist_tail (es : list cst) : list token :=
+  match es with [] => [TRbracket] | x :: r => TComma :: flat x ++ mlist_tail r end.
+Fixpoint mhash_tail (kvs : list (bool * str * cst)) : list token :=
+  match kvs with [] => [TRbrace] | (q, k, x) :: r => TComma :: key_tok q k :: TColon :: flat x ++ mhash_tail r end.
+Definition flat_arg (a : bool * cst) : list token := (if fst a then [TAmpersand] else []) ++ flat (snd a).
+Fixpoint args_tail (args : list (bool * cst)) : list token :=
+  match args with [] => [TRparen] | a :: r => TComma :: flat_arg a ++ args_tail r end.
+Definition erase_arg (a : bool * cst) : ast := if fst a then AExpref (erase (snd a)) else erase (snd a).
+
+Lemma flat_mlist e es : flat (CMList e es) = TLbracket :: flat e ++ mlist_tail es.
+Proof. reflexivity. Qed.
+
+Lemma flat_mhash q k e kvs : flat (CMHash (q, k, e) kvs) = TLbrace :: key_tok q k :: TColon :: flat e ++ mhash_tail kvs.
+Proof. reflexivity. Qed.
+
+Lemma flat_call off name args :
+  flat (CCall off name args) =
+    TIdentifier name :: TLparen :: match args with [] => [TRparen] | a :: r => flat_arg a ++ args_tail r end.
+Proof.
+  cbn [flat]. do 2 f_equal. destruct args as [|[b x] r]; [reflexivity|]. unfold flat_arg. cbn [fst snd]. rewrite <- app_assoc. do 2 f_equal.
+  induction r as [|[b' y] r IH]; cbn [args_tail]; [reflexivity|]. unfold flat_arg. cbn [fst snd]. rewrite <- app_assoc. f_equal. f_equal. f_equal. exact IH.
+Qed.
+
+Lemma erase_call off name args : erase (CCall off name args) = AFunction off name (map erase_arg args).
+Proof. cbn [erase]. f_equal. apply map_ext. intros [b x]. reflexivity. Qed.
+
+Lemma erase_mhash q k e kvs :
+  erase (CMHash (q, k, e) kvs) = AMultiHash ((k, erase e) :: map (fun kv : bool * str * cst => (snd (fst kv), erase (snd kv))) kvs).
+Proof. cbn [erase]. do 2 f_equal. apply map_ext. intros [[q' k'] x]. reflexivity. Qed.
